@@ -71,6 +71,28 @@ pub fn gen(seed: u64, n: usize, out: &mut String) {
 pub fn run(id: &str, rest: &str) -> String {
     let t: Vec<&str> = rest.split(' ').collect();
     match t[0] {
+        // E <ENC body>: a stream made by the encoder (single thread); count_bits against the bits a counting sink
+        // receives, for every frame and for the stream.  Used by the targeted search (quotient sums around 2^32
+        // reached through the encoder, which builds residuals without the constructor's checks).
+        "E" => {
+            let body = rest.splitn(2, ' ').nth(1).unwrap_or("");
+            let mut c = crate::s_enc::parse(body);
+            c.cfg.mt = false;
+            match crate::s_enc::encode(&c) {
+                Err(e) => format!("{} {}", id, e),
+                Ok(s) => {
+                    for k in 0..s.frame_count() {
+                        let f = s.frame(k).unwrap();
+                        let mut cs = CountSink(0);
+                        if f.write(&mut cs).is_err() { return format!("{} write-err", id); }
+                        if f.count_bits() as u64 != cs.0 { return format!("{} ok frame={} count={} written={}", id, k, f.count_bits(), cs.0); }
+                    }
+                    let mut cs = CountSink(0);
+                    if s.write(&mut cs).is_err() { return format!("{} write-err", id); }
+                    format!("{} ok count={} written={}", id, s.count_bits(), cs.0)
+                }
+            }
+        }
         "R" => {
             let order: usize = t[1].parse().unwrap(); let block: usize = t[2].parse().unwrap(); let warmup: usize = t[3].parse().unwrap();
             let params: Vec<u8> = parse_list(t[4]); let quot: Vec<u32> = parse_list(t[5]); let rem: Vec<u32> = parse_list(t[6]);
